@@ -150,11 +150,15 @@ def main():
             doms = list(reuse_from.table_index.field_domains)
         else:
             conv = {"list": list, "tuple": tuple, "domaintuple": domaintuple}[rep.get("doms_as", "list")]
-            doms = [conv(d) for d in doms]
+            if rep.get("ctor") == "fields":     # the container the caller puts into Field(...) is KEPT by TableIndex(fields=)
+                kc = {"dt": domaintuple, "t": tuple, "l": list}
+                doms = [kc[k](d) for k, d in zip(case.get("kinds", ["dt"] * len(doms)), doms)]
+            else:
+                doms = [conv(d) for d in doms]
             if rep.get("share_doms"):       # ONE object for every field whose domain is the same sequence
                 for i in range(len(doms)):
                     for j in range(i):
-                        if case["doms"][i] == case["doms"][j]:
+                        if case["doms"][i] == case["doms"][j] and type(doms[i]) is type(doms[j]):
                             doms[i] = doms[j]
         if not bump:
             INPUTS.update(doms=doms, data=data, data_copy=np.array(data, copy=True))
@@ -166,6 +170,9 @@ def main():
                 return cls.from_dict({s: data[i] for i, s in enumerate(doms[0])})
             d = {s: {a: data[i, j] for j, a in enumerate(doms[1]) if (i, j) not in miss} for i, s in enumerate(doms[0])}
             return cls.from_dict(d, default_value=(999 + (1 if rep.get("dtype") == "float" else 0)))
+        if ctor == "fields":            # public path: numpy array + TableIndex(fields=[Field(name, domain)...]), any class
+            from msdm.core.table.tableindex import Field
+            return cls(data, TableIndex(fields=[Field(n, d) for n, d in zip(names, doms)]))
         if ctor == "listdata":
             data = data.tolist()
             if not bump:
@@ -178,9 +185,6 @@ def main():
             return cls.from_state_action_lists(doms[0], doms[1], data)
         if reuse_from is not None and ctor != "fields":
             return cls(data, reuse_from.table_index)
-        if ctor == "fields":
-            from msdm.core.table.tableindex import Field
-            return cls(data, TableIndex(fields=[Field(n, domaintuple(d)) for n, d in zip(names, doms)]))
         return cls(data, TableIndex(field_names=names, field_domains=doms))
 
     def one(case, pl):
